@@ -82,4 +82,20 @@ theorem C11_sim_no_false_alarm
   have h := Sim.runTraces_ok (P := P) hkc fuel n answers {} (by intro e he; simp at he) e he
   exact ⟨e.2, h.path, (h.ev pr hpr hexp).1, (h.ev pr hpr hexp).2⟩
 
+/-- **No false alarm, multi-threaded simulation**: whatever the colleagues discover meanwhile (`orc`), wherever the
+    worker's traces are cut off (`fuels`), an eventually-counterexample inserted by a worker is a maximal path that never
+    satisfies the condition. -/
+theorem C11_sim_worker_no_false_alarm
+    (hkc : ∀ a b, P.M.Reach a → P.M.Reach b → P.key a = P.key b → ∀ pr ∈ P.props, pr.cond a = pr.cond b)
+    (orc : Nat → Nat → Nat → Bool) (fuels : List Nat) (answers : List Nat) (i : Nat) (pr : Prop' σ)
+    (hpr : P.props[i]? = some pr) (hexp : pr.exp = .eventually)
+    (hd : hasDisc (Sim.tracesO P orc 0 fuels answers {}).disc i = true) :
+    ∃ p, MaxPathAvoidingSim P pr p := by
+  unfold hasDisc at hd
+  obtain ⟨e, he, hei⟩ := List.any_eq_true.1 hd
+  have hei : e.1 = i := by simpa using hei
+  subst hei
+  have h := Sim.tracesO_ok (P := P) hkc orc fuels 0 answers {} (by intro e he; simp at he) e he
+  exact ⟨e.2, h.path, (h.ev pr hpr hexp).1, (h.ev pr hpr hexp).2⟩
+
 end SR.C11
